@@ -727,10 +727,14 @@ static void sdo_prehash(int phase)
 static const uint32_t SDO_RX[2] = { 0x600 + SDO_NODEID, 0x6C1 }, SDO_TX[2] = { 0x580 + SDO_NODEID, 0x5C1 };
 static void sdo_request(int srvno, const uint8_t *req)
 {
-    WFrame mine[W_MAX_TX]; int n = 0, first = OBS.ntx;
+    WFrame mine[W_MAX_TX]; int n = 0, first = OBS.ntx, ref0 = OBS.nrefused;
     w_rx(&Node, SDO_RX[srvno], 8, req);
     mc_steps++;
-    for (int i = first; i < OBS.ntx && i < W_MAX_TX; i++) {
+    for (int i = first; i <= OBS.ntx && i < W_MAX_TX; i++) {
+        /* a frame the driver refused (send_refuse_nth) never reaches the client, but the reference server judges what the server handed
+         * to the driver: it is put back at its place in the stream */
+        for (int k = ref0; k < OBS.nrefused && k < 4; k++) if (OBS.refused_pos[k] == i && OBS.refused[k].id == SDO_TX[srvno] && n < W_MAX_TX) mine[n++] = OBS.refused[k];
+        if (i == OBS.ntx) break;
         if (OBS.tx[i].id == SDO_TX[srvno]) mine[n++] = OBS.tx[i];
         else { mc_fail("sdo-foreign-frame", "request to server %d produced a frame with identifier %03X", srvno, OBS.tx[i].id); return; }
     }
